@@ -350,6 +350,17 @@ def generate(tier, seed, ctx):
         else:
             rows2 = rows[:-1] if rows and rng4.random() < 0.5 else rows + [[delem()]]
         R.append("c19.listseqd2 %d %s %d %s" % (len(rows), " ".join(_dl(r) for r in rows), len(rows2), " ".join(_dl(r) for r in rows2)))
+    # the same vector object as both arguments of every two-list template (directly, through a second reference) and an
+    # equal copy, over the IEEE element classes: a list with a NaN is not equal to itself, signed zeros are
+    for k in range(160 if thorough else 60):
+        a = [delem() for _ in range(rng4.randint(0, 7))]
+        if k % 4 == 0 and a:
+            a[rng4.randrange(len(a))] = ("nan", math.nan)
+        R.append("c19.aliasd %s" % _dl(a))
+        rows = [[delem() for _ in range(rng4.randint(0, 4))] for _ in range(rng4.randint(0, 4))]
+        if k % 4 == 1 and rows:
+            rows[rng4.randrange(len(rows))].append(("nan", math.nan))
+        R.append("c19.aliasd2 %d %s" % (len(rows), " ".join(_dl(r) for r in rows)))
     for n in range(0, 6 if thorough else 5):   # Sub_List: exhaustive index grid
         v = [10 + i for i in range(n)]
         for i1 in range(-2, n + 3):
@@ -482,6 +493,8 @@ def compare(rq, impl, model, ctx):
         return compare_overload(op, a, impl, ctx)
     if op in ("c19.listseqd", "c19.listseqd2"):
         return fs + compare_listseqd(op, a, impl, model, ctx)
+    if op in ("c19.aliasd", "c19.aliasd2"):
+        return fs + compare_alias(op, a, impl, model, ctx)
     if tag(model) in ("ok", "err"):
         ctx["nontrivial"].add(_key(op, a, model))
     if not both:
@@ -669,6 +682,59 @@ def compare_listseqd(op, a, impl, model, ctx):
     if tag(model) == "ok" and int(toks(model)[0]) != int(want):
         out.append(fail("corr", "Lists_Equal(double): the model disagrees with the definition evaluated on the request", model))
     _record(ctx, " ".join([op] + a), impl)
+    return out
+
+
+def _same_dbl(x, y):
+    """identical as doubles: both NaN, or equal with the same sign of zero"""
+    return (math.isnan(x) and math.isnan(y)) or (x == y and math.copysign(1, x) == math.copysign(1, y))
+
+
+def compare_alias(op, a, impl, model, ctx):
+    """Two-list templates called with the same object twice.  Lists_Equal(x,x), Lists_Equal(x,ref-to-x) and Lists_Equal(x,copy)
+    must all be the element-wise definition (true iff no element is NaN: theorems listsEqualD_self / listsEqualDD_self);
+    Combine_Lists(x,x) must be x followed by x, Transpose_Lists(x,x) the pairs (x[i],x[i]) - element for element as doubles."""
+    if tag(impl) != "ok":
+        return []
+    ti = toks(impl)
+    out = []
+    if op == "c19.aliasd":
+        x, _ = _parse_dl(a, 0); rows = [x]
+    else:
+        rows, _ = _parse_dll(a, 0)
+    flat = [e for r in rows for e in r]
+    want = int(not any(math.isnan(e) for e in flat))
+    ctx["nontrivial"].add((op, want, min(len(rows if op.endswith("2") else flat), 4)))
+    names = ("the same object twice", "the object and a second reference to it", "the object and an equal copy")
+    for k in range(3):
+        if int(ti[k]) != want:
+            out.append(fail("prop", "Lists_Equal(%s) with %s: differs from `sizes equal and pointwise ==` (a list holding a NaN is not equal to itself)"
+                            % ("nested double" if op.endswith("2") else "double", names[k]), "returned %s, definition gives %d" % (ti[k], want)))
+    if tag(model) == "ok" and [int(t) for t in toks(model)[:3]] != [want] * 3:
+        out.append(fail("corr", "Lists_Equal(x,x): the model disagrees with the definition evaluated on the request", model))
+    pos = 3
+    def rd_list(pos):
+        n = int(ti[pos]); return [fl(t) for t in ti[pos + 1:pos + 1 + n]], pos + 1 + n
+    if op == "c19.aliasd":
+        c, pos = rd_list(pos)
+        if len(c) != 2 * len(x) or not all(_same_dbl(p, q) for p, q in zip(c, x + x)):
+            out.append(fail("prop", "Combine_Lists(x,x) with the same object twice is not x followed by x", ""))
+        nt = int(ti[pos]); pos += 1
+        ok_t = nt == len(x)
+        for i in range(nt):
+            r, pos = rd_list(pos)
+            ok_t = ok_t and i < len(x) and len(r) == 2 and _same_dbl(r[0], x[i]) and _same_dbl(r[1], x[i])
+        if not ok_t:
+            out.append(fail("prop", "Transpose_Lists(x,x) with the same object twice is not the list of pairs (x[i],x[i])", ""))
+    else:
+        nc = int(ti[pos]); pos += 1
+        ok_c = nc == 2 * len(rows)
+        for i in range(nc):
+            r, pos = rd_list(pos)
+            ref = rows[i % len(rows)] if rows else []
+            ok_c = ok_c and len(r) == len(ref) and all(_same_dbl(p, q) for p, q in zip(r, ref))
+        if not ok_c:
+            out.append(fail("prop", "Combine_Lists(vv,vv) with the same object twice is not vv followed by vv", ""))
     return out
 
 
